@@ -13,13 +13,43 @@
      topicsStateForUser): the loaded group topic owned by that user gets the read-only bit; the bit
      lives in memory only (a reload clears it: modelled as the code is);
    * 'me' and 'fnd' (attachment only; the grant there is ModeCSelf = JPS, no W) and 'sys' (always
-     loaded by the hub, no attachment and no write check, messages numbered like everywhere else).
+     loaded by the hub, no attachment and no write check, messages numbered like everywhere else);
+   * the FULL test of hub.topicsStateForUser ([state_pred]) applied to every loaded topic of every
+     category: the group topic (the user may be its owner or a plain member), any number of
+     peer-to-peer topics (each one a second instance of the topic model with two subscription rows and
+     no owner: handlePubBroadcast / saveAndBroadcastMessage / attach / detach / idle unload are the
+     same code for both categories; its own read-only bit), 'sys' with its subscribers (root accounts
+     that once did {sub sys}: they are in sys.perUser), 'me'/'fnd' (skipped by the first test).
 
    Definitions only. *)
 From Coq Require Import ZArith NArith List Bool.
 From Tinode Require Import Base.Util Pure.Acs Sys.Topic.
 Import ListNotations.
 Open Scope Z_scope.
+
+(* types.TopicCat *)
+Inductive tcat := CatMe | CatFnd | CatP2P | CatGrp | CatSys.
+Definition cat_is_p2p (c : tcat) : bool := match c with CatP2P => true | _ => false end.
+
+(* hub.topicsStateForUser(uid, suspended), the body of the Range over the loaded topics:
+     if topic.cat == TopicCatMe || topic.cat == TopicCatFnd { return true }
+     if _, isMember := topic.perUser[uid]; (topic.cat == TopicCatP2P && isMember) || topic.owner == uid {
+         topic.markReadOnly(suspended) } *)
+Definition state_pred (c : tcat) (is_member : bool) (owner u : N) : bool :=
+  match c with
+  | CatMe | CatFnd => false
+  | _ => (cat_is_p2p c && is_member) || N.eqb owner u
+  end.
+
+Definition is_member (c : cache) (u : N) : bool :=
+  match alookup u (c_users c) with Some _ => true | None => false end.
+
+(* a peer-to-peer topic: store rows + cache as for the group topic (two rows, no O anywhere: CreateP2P
+   masks the modes with ModeCP2P, so the loaded topic has no owner), and its read-only bit *)
+Record ptopic := mkPT { pt_b : state; pt_ro : bool }.
+
+(* types.ModeCSys = JRWPD *)
+Definition ModeCSys : N := 79%N.
 
 Record xstate := mkX {
   xb : state;                      (* the group topic: store rows + cache *)
@@ -31,24 +61,46 @@ Record xstate := mkX {
   x_fnd : list N;                  (* sessions attached to their 'fnd' topic *)
   x_sys_seqid : Z;                 (* topics.seqid of 'sys' (store) *)
   x_sys_lastid : Z;                (* Topic.lastID of 'sys' (memory) *)
-  x_sys_msgs : list msgrow }.      (* messages of 'sys' (store) *)
+  x_sys_msgs : list msgrow;        (* messages of 'sys' (store) *)
+  x_sys_ro : bool;                 (* topicStatusReadOnly of 'sys' (memory) *)
+  x_sys_subs : list N;             (* users with a live subscription row on 'sys' (ModeCSys/ModeCSys): sys.perUser *)
+  x_p2p : list ptopic }.           (* the peer-to-peer topics *)
 
 Definition set_b (b : state) (x : xstate) : xstate :=
-  mkX b (x_del x) (x_ro x) (x_susp x) (x_me x) (x_fnd x) (x_sys_seqid x) (x_sys_lastid x) (x_sys_msgs x).
+  mkX b (x_del x) (x_ro x) (x_susp x) (x_me x) (x_fnd x) (x_sys_seqid x) (x_sys_lastid x) (x_sys_msgs x) (x_sys_ro x) (x_sys_subs x) (x_p2p x).
 Definition set_del (d : option (N * fault)) (x : xstate) : xstate :=
-  mkX (xb x) d (x_ro x) (x_susp x) (x_me x) (x_fnd x) (x_sys_seqid x) (x_sys_lastid x) (x_sys_msgs x).
+  mkX (xb x) d (x_ro x) (x_susp x) (x_me x) (x_fnd x) (x_sys_seqid x) (x_sys_lastid x) (x_sys_msgs x) (x_sys_ro x) (x_sys_subs x) (x_p2p x).
 Definition set_ro (r : bool) (x : xstate) : xstate :=
-  mkX (xb x) (x_del x) r (x_susp x) (x_me x) (x_fnd x) (x_sys_seqid x) (x_sys_lastid x) (x_sys_msgs x).
+  mkX (xb x) (x_del x) r (x_susp x) (x_me x) (x_fnd x) (x_sys_seqid x) (x_sys_lastid x) (x_sys_msgs x) (x_sys_ro x) (x_sys_subs x) (x_p2p x).
 Definition set_susp (l : list N) (x : xstate) : xstate :=
-  mkX (xb x) (x_del x) (x_ro x) l (x_me x) (x_fnd x) (x_sys_seqid x) (x_sys_lastid x) (x_sys_msgs x).
+  mkX (xb x) (x_del x) (x_ro x) l (x_me x) (x_fnd x) (x_sys_seqid x) (x_sys_lastid x) (x_sys_msgs x) (x_sys_ro x) (x_sys_subs x) (x_p2p x).
 Definition set_me (l : list N) (x : xstate) : xstate :=
-  mkX (xb x) (x_del x) (x_ro x) (x_susp x) l (x_fnd x) (x_sys_seqid x) (x_sys_lastid x) (x_sys_msgs x).
+  mkX (xb x) (x_del x) (x_ro x) (x_susp x) l (x_fnd x) (x_sys_seqid x) (x_sys_lastid x) (x_sys_msgs x) (x_sys_ro x) (x_sys_subs x) (x_p2p x).
 Definition set_fnd (l : list N) (x : xstate) : xstate :=
-  mkX (xb x) (x_del x) (x_ro x) (x_susp x) (x_me x) l (x_sys_seqid x) (x_sys_lastid x) (x_sys_msgs x).
+  mkX (xb x) (x_del x) (x_ro x) (x_susp x) (x_me x) l (x_sys_seqid x) (x_sys_lastid x) (x_sys_msgs x) (x_sys_ro x) (x_sys_subs x) (x_p2p x).
 Definition set_sys (seqid lastid : Z) (ms : list msgrow) (x : xstate) : xstate :=
-  mkX (xb x) (x_del x) (x_ro x) (x_susp x) (x_me x) (x_fnd x) seqid lastid ms.
+  mkX (xb x) (x_del x) (x_ro x) (x_susp x) (x_me x) (x_fnd x) seqid lastid ms (x_sys_ro x) (x_sys_subs x) (x_p2p x).
+Definition set_sys_ro (r : bool) (x : xstate) : xstate :=
+  mkX (xb x) (x_del x) (x_ro x) (x_susp x) (x_me x) (x_fnd x) (x_sys_seqid x) (x_sys_lastid x) (x_sys_msgs x) r (x_sys_subs x) (x_p2p x).
+Definition set_p2p (l : list ptopic) (x : xstate) : xstate :=
+  mkX (xb x) (x_del x) (x_ro x) (x_susp x) (x_me x) (x_fnd x) (x_sys_seqid x) (x_sys_lastid x) (x_sys_msgs x) (x_sys_ro x) (x_sys_subs x) l.
 
 Definition memN (k : N) (l : list N) : bool := existsb (N.eqb k) l.
+
+(* the requests issued to a peer-to-peer topic (the topic and both subscriptions exist: initTopicP2P case 4) *)
+Inductive p2pop :=
+| PSub (sid : N)                                   (* {sub topic=usrX}, no mode *)
+| PLeave (sid : N)                                 (* {leave topic=usrX} *)
+| PPub (sid : N) (content : N) (noecho : bool)     (* {pub topic=usrX} *)
+| PUnload.                                         (* idle timeout of the topic with no sessions *)
+Definition p2p_op (o : p2pop) : op :=
+  match o with
+  | PSub sid => OSub sid [] false
+  | PLeave sid => OLeave sid false
+  | PPub sid content noecho => OPub sid content noecho
+  | PUnload => OUnload
+  end.
+Definition is_ppub (o : p2pop) : bool := match o with PPub _ _ _ => true | _ => false end.
 
 Inductive xev :=
 | EBase (f : fault) (o : op)                       (* a request to the group topic, see Topic.op *)
@@ -59,11 +111,13 @@ Inductive xev :=
 | ESubFnd (sid : N)
 | EPubMe (sid : N) (content : N)
 | EPubFnd (sid : N) (content : N)
-| EPubSys (f : fault) (sid : N) (content : N).
+| EPubSys (f : fault) (sid : N) (content : N)
+| EP2P (k : nat) (f : fault) (o : p2pop).          (* a request to the k-th peer-to-peer topic *)
 
 (* the process died: nothing in memory survives; 'sys' is loaded again from its row *)
 Definition mem_reset (x : xstate) : xstate :=
-  mkX (mkState (st (xb x)) None (ncalls (xb x))) None false (x_susp x) [] [] (x_sys_seqid x) (x_sys_seqid x) (x_sys_msgs x).
+  mkX (mkState (st (xb x)) None (ncalls (xb x))) None false (x_susp x) [] [] (x_sys_seqid x) (x_sys_seqid x) (x_sys_msgs x)
+      false (x_sys_subs x) (map (fun p => mkPT (mkState (st (pt_b p)) None (ncalls (pt_b p))) false) (x_p2p x)).
 Definition after_crash (f : fault) (x : xstate) : xstate :=
   match f with CrashAt _ => mem_reset x | _ => x end.
 
@@ -121,11 +175,17 @@ Definition base_step (x : xstate) (f : fault) (o : op) : xstate * out :=
     ((match o with ORestart => mem_reset x2 | _ => after_crash f x2 end), o1)
   end.
 
-(* {pub} to 'sys': hub.routeCli -> Topic('sys').handlePubBroadcast -> saveAndBroadcastMessage without
-   the write check; nobody is attached or subscribed in the model, so the only output is the reply *)
+(* pushForData on 'sys': every subscriber has P and R (ModeCSys), sorted by user id for comparison *)
+Definition sys_push (x : xstate) (seq : Z) (from : N) : out :=
+  match fold_right insert_n [] (x_sys_subs x) with [] => [] | l => [(0%N, Push seq from l)] end.
+
+(* {pub} to 'sys': hub.routeCli -> Topic('sys').handlePubBroadcast (isReadOnly -> 403) -> saveAndBroadcastMessage
+   without the write check; nobody is attached in the model, so the outputs are the reply and the push
+   receipt for the subscribers *)
 Definition publish_sys (x : xstate) (f : fault) (sid : N) (content : N) : xstate * out :=
   let u := sess_uid sm sid in
   if (u =? 0)%N then (x, []) else
+  if x_sys_ro x then (after_crash f x, [(sid, Ctrl 403 [])]) else
   let seq := x_sys_lastid x + 1 in
   let '(ok1, n1) := call f 0 in                        (* TopicUpdateOnMessage *)
   if negb ok1 then (after_crash f x, [(sid, Ctrl 500 [])]) else
@@ -133,23 +193,68 @@ Definition publish_sys (x : xstate) (f : fault) (sid : N) (content : N) : xstate
   let '(ok2, n2) := call f n1 in                       (* MessageSave *)
   if negb ok2 then (after_crash f x1, [(sid, Ctrl 500 [])]) else
   if existsb (fun m => m_seq m =? seq) (x_sys_msgs x) then (after_crash f x1, [(sid, Ctrl 500 [])]) else
-  (after_crash f (set_sys seq seq (x_sys_msgs x ++ [mkMsg seq u content 0]) x), [(sid, Ctrl 202 [(P_seq, seq)])]).
+  (* an author who is a subscriber has R: SubsUpdate(read, recv) of his row, error ignored; the marks of the
+     sys rows are not part of the state *)
+  (after_crash f (set_sys seq seq (x_sys_msgs x ++ [mkMsg seq u content 0]) x),
+   (sid, Ctrl 202 [(P_seq, seq)]) :: sys_push x seq u).
 
-(* root {acc user state}: replyUpdateUser / changeUserState / hub.topicsStateForUser *)
+(* hub.topicsStateForUser(u, b) over the loaded topics: the group topic, 'sys' (always loaded, perUser = its
+   subscribers, no owner), the loaded peer-to-peer topics; 'me' and 'fnd' topics are skipped by the first test
+   of the loop ([state_pred CatMe/CatFnd] = false) and have no read-only bit in this model *)
+Definition mark_p2p (u : N) (b : bool) (p : ptopic) : ptopic :=
+  match ca (pt_b p) with
+  | Some c => if state_pred CatP2P (is_member c u) (c_owner c) u then mkPT (pt_b p) b else p
+  | None => p
+  end.
+Definition mark_topics (x : xstate) (u : N) (b : bool) : xstate :=
+  let x1 := match ca (xb x) with
+            | Some c => if state_pred CatGrp (is_member c u) (c_owner c) u then set_ro b x else x
+            | None => x
+            end in
+  let x2 := if state_pred CatSys (memN u (x_sys_subs x)) 0%N u then set_sys_ro b x1 else x1 in
+  set_p2p (map (mark_p2p u b) (x_p2p x)) x2.
+
+(* root {acc user state}: replyUpdateUser / changeUserState / hub.userStatus -> hub.topicsStateForUser
+   (the zero uid is no account: Users.Get finds nothing) *)
 Definition suspend (x : xstate) (f : fault) (u : N) (b : bool) : xstate :=
   let '(ok1, n1) := call f 0 in                        (* Users.Get *)
   if negb ok1 then x else
-  match alookup u (users (st (xb x))) with
+  match (if (u =? 0)%N then None else alookup u (users (st (xb x)))) with
   | None => x
   | Some _ =>
     if Bool.eqb (memN u (x_susp x)) b then x else
     let '(ok2, n2) := call f n1 in                     (* Users.UpdateState *)
     if negb ok2 then x else
-    let x1 := set_susp (if b then u :: x_susp x else filter (fun v => negb (N.eqb v u)) (x_susp x)) x in
-    match ca (xb x) with
-    | Some c => if N.eqb (c_owner c) u then set_ro b x1 else x1
-    | None => x1
-    end
+    mark_topics (set_susp (if b then u :: x_susp x else filter (fun v => negb (N.eqb v u)) (x_susp x)) x) u b
+  end.
+
+(* a request to the k-th peer-to-peer topic outside the deletion window.  Only a party can address the topic
+   (for anybody else the name usrX means another topic).  handlePubBroadcast of a read-only topic: 403. *)
+Fixpoint upd_nth {A} (k : nat) (v : A) (l : list A) : list A :=
+  match l, k with
+  | [], _ => []
+  | _ :: r, O => v :: r
+  | a :: r, S k' => a :: upd_nth k' v r
+  end.
+Definition p2p_party (p : ptopic) (u : N) : bool :=
+  existsb (fun r => N.eqb (s_user r) u && negb (s_deleted r)) (subs (st (pt_b p))).
+Definition pt_attached (p : ptopic) (sid : N) : bool :=
+  match ca (pt_b p) with Some c => attached c sid | None => false end.
+Definition p2p_step (x : xstate) (k : nat) (f : fault) (po : p2pop) : xstate * out :=
+  match nth_error (x_p2p x) k with
+  | None => (x, [])
+  | Some p =>
+    let o := p2p_op po in
+    let sid := op_sid o in
+    let u := sess_uid sm sid in
+    if negb (match po with PUnload => true | _ => negb (u =? 0)%N && p2p_party p u end) then (x, []) else
+    if pt_ro p && pt_attached p sid && is_ppub po then
+      (after_crash f (set_p2p (upd_nth k (mkPT (mkState (st (pt_b p)) (ca (pt_b p)) 0) (pt_ro p)) (x_p2p x)) x),
+       [(sid, Ctrl 403 [])])
+    else
+      let '(b1, o1) := step_f dr nr sm (pt_b p) (f, o) in
+      let p1 := mkPT b1 (match ca b1 with None => false | Some _ => pt_ro p end) in
+      (after_crash f (set_p2p (upd_nth k p1 (x_p2p x)) x), o1)
   end.
 
 (* events outside the deletion window *)
@@ -173,6 +278,7 @@ Definition xcore (x : xstate) (e : xev) : xstate * out :=
   | EPubMe sid _ => (x, [(sid, Ctrl (if memN sid (x_me x) then 403 else 409) [])])
   | EPubFnd sid _ => (x, [(sid, Ctrl (if memN sid (x_fnd x) then 403 else 409) [])])
   | EPubSys f sid content => publish_sys x f sid content
+  | EP2P k f o => p2p_step x k f o
   end.
 
 (* one event *)
@@ -198,5 +304,9 @@ Fixpoint xrun (x : xstate) (h : list xev) : xstate * list out :=
               let '(x2, os) := xrun x1 r in (x2, o1 :: os)
   end.
 
-Definition xinit (s : store) : xstate := mkX (mkState s None 0) None false [] [] [] 0 0 [].
+(* the initial state: nothing loaded but 'sys'; [subs] = the subscribers of 'sys', [ps] = the stores of the
+   peer-to-peer topics (topic row + the two subscription rows) *)
+Definition xinit_pop (s : store) (subs : list N) (ps : list store) : xstate :=
+  mkX (mkState s None 0) None false [] [] [] 0 0 [] false subs (map (fun s' => mkPT (mkState s' None 0) false) ps).
+Definition xinit (s : store) : xstate := xinit_pop s [] [].
 End Life.
